@@ -4,6 +4,9 @@ CONSTANTS
   ROSChoices = {TRUE, FALSE}
   RefOutcomes = {"nil", "err"}
   CloseLate = FALSE
+  ExtraRefreshes = FALSE
+  MaxExtra = 2
+  ExtraChoices = {0, 2}
   StopOnCancel = FALSE
   SctxInit = {"live", "cancelled"}
   CancelUpTo = 2
